@@ -3705,6 +3705,13 @@ void SoPlexBase<R>::_lift()
       }
    }
 
+   // the lifting columns are free and the lifting rows are equations: keep the range types complete
+   for(int k = _colTypes.size(); k < numColsRational(); k++)
+      _colTypes.append(RANGETYPE_FREE);
+
+   for(int k = _rowTypes.size(); k < numRowsRational(); k++)
+      _rowTypes.append(RANGETYPE_FIXED);
+
    // adjust basis
    if(_hasBasis)
    {
@@ -3750,6 +3757,13 @@ void SoPlexBase<R>::_project(SolRational& sol)
    // shrink real LP to original size
    _realLP->removeColRange(_beforeLiftCols, numColsReal() - 1);
    _realLP->removeRowRange(_beforeLiftRows, numRowsReal() - 1);
+
+   // shrink range types to original size
+   if(_colTypes.size() > _beforeLiftCols)
+      _colTypes.reSize(_beforeLiftCols);
+
+   if(_rowTypes.size() > _beforeLiftRows)
+      _rowTypes.reSize(_beforeLiftRows);
 
    // adjust solution
    if(sol.isPrimalFeasible())
